@@ -179,12 +179,13 @@ CLAIMED = {
         technique="Coq proof (prefix-monotonicity of a chain of left folds; append-only invariant of the QUIC output buffer) + exhaustive cut sweep on the implementation",
         design="I.4 C08"),
     "C06": dict(
-        text="Proof (TLS conversation, splitting, TCP/UDP/IPv4/IPv6 frame validity; pcapng layout by strict read-back): Coq theorems C06_conversation (a non-empty export is a three-way handshake "
+        text="Proof: Coq theorems C06_conversation (a non-empty export is a three-way handshake "
              "followed by segments that the standard reassembler of Spec/Reader.v reads back as exactly the exported streams: gap-free, non-overlapping, consistent "
              "acknowledgements), C06_splitting (a record carried by k packets is re-split into at most k parts whose concatenation is the record), C06_tcp_checksum and "
              "C06_ipv4_header (the frame model's TCP checksum and IPv4 header verify, lengths correct), C06_udp_datagram (every UDP datagram of a QUIC export: ports, length "
-             "field and payload in place, checksum verifying against the IPv4 or IPv6 pseudo-header, also when 0xFFFF replaces a computed 0) and C06_ipv6_header. The pcapng "
-             "block layout and the empty-session cases are "
+             "field and payload in place, checksum verifying against the IPv4 or IPv6 pseudo-header, also when 0xFFFF replaces a computed 0), C06_ipv6_header, and the container: "
+             "C06_output_is_pcapng (the file written is a section as the standard's serialiser of Spec/PcapngSpec.v produces it) and C06_output_reads_back (the reader of C12 "
+             "reads it back to exactly the packets written). The empty-session cases are "
              "decided by an independent strict pcapng reader, frame validator and TCP reassembler on the implementation's output for healthy and damaged captures under "
              "rotating option sets, with byte-exact model/implementation correspondence.",
         note="Trusted: Coq kernel; scapy/dpkt serialisation modelled (Model/Frames.v, PcapngWriter.v) and tied by byte-exact correspondence; tools/ref/readback.py.",
